@@ -236,6 +236,12 @@ type GRPCEndpoint struct {
 	Headers  []Mapping `json:"headers,omitempty"`
 	Trailers []Mapping `json:"trailers,omitempty"`
 	Code     string    `json:"code,omitempty"`
+	// Message / RespMessage list attributes named explicitly with the
+	// Message DSL (request / response). The DSL documents that every other
+	// payload (result) attribute not carried in metadata is added to the
+	// message as well, so the lists do not change where anything travels.
+	Message     []string `json:"message,omitempty"`
+	RespMessage []string `json:"resp_message,omitempty"`
 }
 
 // Method is a service method.
